@@ -118,7 +118,10 @@ Definition parse_label (pd : pdict) (raw : str) : res str :=
     let i := find (Str ":") raw in
     if (i =? -1) then Err ExValue
     else match dget pd (slice_to raw i) with
-         | Some n => Ok (c_STARTING_CHAR_FOR_SHAPE_NAME ++ n ++ slice_from raw (i + 1))
+         | Some n =>
+           (* two shapes of the code (C10-F2), told apart by gen_consts *)
+           if c_sm_label_bracketed then Ok (add_corners (n ++ slice_from raw (i + 1)))
+           else Ok (c_STARTING_CHAR_FOR_SHAPE_NAME ++ n ++ slice_from raw (i + 1))
          | None => Err ExValue
          end.
 
@@ -213,8 +216,16 @@ Definition remove_trailing_comma (line : str) : str :=
 
 (** [_parse_shape_map_item_from_line]: the label is parsed first (keyword
     arguments are evaluated in the order written) *)
+(** [line.split("@")] (every '@') or [line.rsplit("@", 1)] (the last '@' only):
+    two shapes of the code (C10-F3), told apart by gen_consts *)
+Definition split_item (line : str) : list str :=
+  if c_sm_item_rsplit then
+    let i := rfind c_sm_item_sep line in
+    if i =? -1 then [line] else [slice_to line i; slice_from line (i + len c_sm_item_sep)]
+  else split c_sm_item_sep line.
+
 Definition parse_fixed_item (wf : str -> bool) (pd : pdict) (line : str) : res pitem :=
-  match split c_sm_item_sep (remove_trailing_comma line) with
+  match split_item (remove_trailing_comma line) with
   | [a; b] =>
     bind (parse_label pd (strip b)) (fun l =>
     bind (parse_node_selector wf pd (strip a)) (fun s => Ok {| pi_sel := s; pi_label := l |}))
@@ -288,8 +299,10 @@ Definition sel_targets (orc : oracles) (g : graph) (s : psel) : res (list str) :
 
 (** ** ShapeMapInstanceTracker *)
 
+(** [_solve_targets_of_an_item]: append, guarded by a membership test in the
+    newer shape of the code (C10-F4; flag from gen_consts) *)
 Definition add_label (d : insts) (node label : str) : insts :=
-  dupd d node [] (fun l => l ++ [label]).
+  dupd d node [] (fun l => if c_sm_dedup_labels && mem_str label l then l else l ++ [label]).
 
 Definition solve_item (orc : oracles) (g : graph) (d : insts) (it : pitem) : res insts :=
   bind (sel_targets orc g (pi_sel it)) (fun nodes =>
